@@ -7,7 +7,7 @@ import itertools
 from harness.common import dec, enc
 
 ID = "C19"
-LEAN_MODULES = ["PptxModel.Props.C19"]
+LEAN_MODULES = ["PptxModel.Props.C19", "PptxModel.Props.C19X"]
 RULE = (
     "segment alphabet {slide, slide12, a.b, x.tar.gz, noext, UPPER.XML, [Content_Types].xml, _rels, 123, "
     ".hidden, image1a2, 1abc}; every accessor on every name to depth 4 and '/'; relative_ref then "
